@@ -11,6 +11,7 @@
 
 inline int atomicInc(volatile int* x) { return ++*x; }
 inline int atomicDec(volatile int* x) { return --*x; }
+inline int atomicGet(const volatile int* x) { return *x; }
 
 #elif defined _WIN32
 
@@ -18,11 +19,17 @@ inline int atomicDec(volatile int* x) { return --*x; }
 
 inline int atomicInc(volatile int* x) { return InterlockedIncrement((long*)(x)); }
 inline int atomicDec(volatile int* x) { return InterlockedDecrement((long*)(x)); }
+inline int atomicGet(const volatile int* x) { return *x; }
 
 #elif __has_builtin(__sync_add_and_fetch) || (defined(__GNUC__) && ASL_C_VER >= 40102)
 
 inline int atomicInc(int volatile* x) { return __sync_add_and_fetch(x, 1); }
 inline int atomicDec(int volatile* x) { return __sync_sub_and_fetch(x, 1); }
+#ifdef __ATOMIC_ACQUIRE
+inline int atomicGet(const volatile int* x) { return __atomic_load_n(x, __ATOMIC_ACQUIRE); } // a read that may run while other threads count
+#else
+inline int atomicGet(const volatile int* x) { return *x; }
+#endif
 
 // gcc >= 4.7 ?
 //inline int atomicInc(int volatile* x) { return __atomic_add_fetch(x, 1, __ATOMIC_RELAXED); }
@@ -31,6 +38,7 @@ inline int atomicDec(int volatile* x) { return __sync_sub_and_fetch(x, 1); }
 #else
 #define ASL_NO_ATOMIC_OPS
 #include "Mutex.h"
+inline int atomicGet(const volatile int* x) { return *x; }
 #endif
 
 #if defined(ASL_VERIF) && !defined(ASL_NO_ATOMIC_OPS)
@@ -59,11 +67,11 @@ public:
 	int operator++() { return atomicInc(&n); }
 	int operator--() { return atomicDec(&n); }
 #endif
-	operator int() const { return n; }
-	bool operator==(int m) const { return n == m; }
-	bool operator<(int m) const { return n < m; }
-	bool operator>(int m) const { return n > m; }
-	bool operator<=(int m) const { return n <= m; }
+	operator int() const { return atomicGet(&n); }
+	bool operator==(int m) const { return atomicGet(&n) == m; }
+	bool operator<(int m) const { return atomicGet(&n) < m; }
+	bool operator>(int m) const { return atomicGet(&n) > m; }
+	bool operator<=(int m) const { return atomicGet(&n) <= m; }
 };
 
 }
